@@ -265,9 +265,15 @@ func ruleC15_3(c *Ctx) {
 			}
 		}
 	}
-	// exhaustion falls through to dial
+	// exhaustion falls through to dial (directly or through a helper)
 	if dial != nil {
-		c.check(len(p.callsIn(get, dial)) >= 1, "Pool.Get: dials when no pooled connection is usable", p.pos(get.Pos()), "dial() after the reuse loop", "Pool.Get never dials: after a backend loss the node stays unreachable")
+		reaches := false
+		for _, f := range p.reachableFuncs(get) {
+			if p.declared(f) == p.declared(dial) {
+				reaches = true
+			}
+		}
+		c.check(reaches, "Pool.Get: dials when no pooled connection is usable", p.pos(get.Pos()), "dial() is reachable from Get", "Pool.Get never dials: after a backend loss the node stays unreachable")
 	}
 	// closed pool returns nil
 	closedF := p.Field(pkgCore, "Pool", "closed")
@@ -499,7 +505,20 @@ func ruleC16_3(c *Ctx) {
 		gs := guardsAt(st.Block())
 		okD := guardHas(gs, func(g Guard) bool {
 			base, is := fieldLoad(g.Cond, doneF)
-			return is && !g.Truth && strip(base) == strip(frag)
+			if !is || g.Truth {
+				return false
+			}
+			// the fragment taken from the deadline tree (possibly through a loop variable)
+			roots := flowRoots(base, nil)
+			if len(roots) == 0 {
+				return false
+			}
+			for _, r := range roots {
+				if call, ok := r.(*ssa.Call); !ok || call.Call.StaticCallee() != get {
+					return false
+				}
+			}
+			return true
 		})
 		okT := guardHas(gs, func(g Guard) bool {
 			call, ok := g.Cond.(*ssa.Call)
